@@ -167,7 +167,7 @@ theorem gen_get_dims (d : Option (String × String)) :
     Gen.getDims Gen.baseDims d = d.getD ("northing", "easting") := by
   cases d <;> rfl
 
-theorem gen_extra_coords_names (cs : List (List Rat)) :
+theorem gen_extra_coords_names {α : Type} (cs : List α) :
     Gen.getExtraCoordsNames Gen.baseExtraCoordsName cs = extraCoordNames (cs.length - 2) := by
   unfold Gen.getExtraCoordsNames extraCoordNames Gen.baseExtraCoordsName
   rw [List.length_drop]
@@ -348,6 +348,149 @@ theorem src_profile_rows (p : Predict) (ncomp : Nat) (h1 : 1 ≤ ncomp) (p1 p2 :
 theorem src_scatter_no_region (p : Predict) (ncomp : Nat) (vs : List (List Rat)) (extra : List Rat) (d : Option (String × String))
     (nm : Option (List String)) (pr : Option (Bool → Rat × Rat → Rat × Rat)) :
     Gen.scatter p ncomp Gen.baseDims Gen.baseExtraCoordsName Gen.baseDataNamesDefaults none none vs extra d nm pr = .error .valueError := rfl
+
+/-! ### `BaseGridder.grid` as regenerated from the source -/
+
+theorem zipWith_zipWith_both {α β γ δ ε : Type} (g : γ → δ → ε) (a : α → β → γ) (b : α → β → δ) (l1 : List α) (l2 : List β) :
+    List.zipWith g (List.zipWith a l1 l2) (List.zipWith b l1 l2) = List.zipWith (fun x y => g (a x y) (b x y)) l1 l2 := by
+  induction l1 generalizing l2 with
+  | nil => simp
+  | cons x xs ih => cases l2 with
+    | nil => simp
+    | cons y ys => simp [ih]
+
+theorem predictOn_projected (p : Predict) (pr : Proj) (E N : Arr2) (k : Nat) :
+    predictOn p none (List.zipWith (List.zipWith fun x y => (pr.apply (x, y)).1) E N) (List.zipWith (List.zipWith fun x y => (pr.apply (x, y)).2) E N) k
+      = predictOn p (some pr) E N k := by
+  unfold predictOn
+  rw [zipWith_zipWith_both]
+  congr 1
+  funext re rn
+  rw [zipWith_zipWith_both]
+
+theorem projectCoordinatesN_eq (cs : List CoordArr) (f : Rat × Rat → Rat × Rat) :
+    Gen.projectCoordinatesN cs f = applyProjTblN f (cs.take 2) ++ cs.drop 2 := by
+  unfold Gen.projectCoordinatesN
+  by_cases h : cs.length > 2
+  · simp [h, Id.run, pure]
+  · have : cs.drop 2 = [] := List.drop_eq_nil_of_le (by omega)
+    simp [h, Id.run, pure, this]
+
+/-- The coordinate tuple handed to the translated `grid`. -/
+def coordsTuple (c : CoordArr × CoordArr × List Arr2) : List CoordArr := c.1 :: c.2.1 :: c.2.2.map .d2
+
+/-- Everything `grid` does once the coordinate arrays are settled. -/
+theorem grid_tail (p : Predict) (ncomp : Nat) (h1 : 1 ≤ ncomp) (E N : Arr2) (ex : List Arr2) (proj : Option Proj) (inv : Rat × Rat → Rat × Rat)
+    (dims : Option (String × String)) (names : Option (List String)) :
+    (do
+      let data ← (match proj.map fun pr (b : Bool) => if b then inv else pr.apply with
+        | some projection => do
+          let data := (predictTblN p ncomp (Gen.projectCoordinatesN (.d2 E :: .d2 N :: ex.map .d2) (projection false)))
+          pure data
+        | none => do
+          let data := (predictTblN p ncomp (.d2 E :: .d2 N :: ex.map .d2))
+          pure data)
+      let dims := (Gen.getDims Gen.baseDims dims)
+      let data_names ← Gen.getDataNames Gen.baseDataNamesDefaults data.length names
+      let extra_coords_names := (Gen.getExtraCoordsNames Gen.baseExtraCoordsName (CoordArr.d2 E :: .d2 N :: ex.map .d2))
+      let dataset ← makeXarrayGridN (.d2 E :: .d2 N :: ex.map .d2) data data_names dims extra_coords_names
+      return dataset : Except Err Dataset)
+    = (do
+      let data := (List.range ncomp).map fun k => predictOn p proj E N k
+      let dims := dims.getD ("northing", "easting")
+      let names ← getDataNames ncomp names
+      makeGrid (.d2 E) (.d2 N) ex (some data) (some names) dims (some (extraCoordNames ex.length))) := by
+  have hex : (ex.map CoordArr.d2).map (·.arr2) = ex := by simp [Function.comp_def, CoordArr.arr2]
+  cases proj with
+  | none =>
+    simp only [Option.map_none, bind, Except.bind, pure, Except.pure, predictTblN, List.length_map, List.length_range,
+      gen_get_data_names ncomp h1, gen_get_dims, gen_extra_coords_names]
+    cases getDataNames ncomp names with
+    | error e => rfl
+    | ok nm =>
+      simp only [makeXarrayGridN, List.map_map, Function.comp_def, CoordArr.arr2, List.length_cons, List.length_map, List.map_id', gen_extra_coords_names]
+      rfl
+  | some pr =>
+    simp only [Option.map_some, bind, Except.bind, pure, Except.pure, projectCoordinatesN_eq, List.take_succ_cons, List.take_zero,
+      List.drop_succ_cons, List.drop_zero, applyProjTblN, List.cons_append, List.nil_append, predictTblN, List.length_map, List.length_range,
+      gen_get_data_names ncomp h1, gen_get_dims, gen_extra_coords_names, Bool.false_eq_true, if_false, predictOn_projected]
+    cases getDataNames ncomp names with
+    | error e => rfl
+    | ok nm =>
+      simp only [makeXarrayGridN, List.map_map, Function.comp_def, CoordArr.arr2, List.length_cons, List.length_map, List.map_id', gen_extra_coords_names]
+      rfl
+
+theorem gen_grid_eq_model (p : Predict) (ncomp : Nat) (h1 : 1 ≤ ncomp) (a : GridArgs) (inv : Rat × Rat → Rat × Rat) :
+    Gen.grid p ncomp Gen.baseDims Gen.baseExtraCoordsName Gen.baseDataNamesDefaults a.regionDefault a.region a.shape a.spacing a.adjust a.pixel
+        a.extra a.dims a.dataNames (a.proj.map fun pr (b : Bool) => if b then inv else pr.apply) (a.coords.map coordsTuple)
+      = gridModel p ncomp a := by
+  unfold Gen.grid gridModel
+  cases hc : a.coords with
+  | none =>
+    simp only [Option.map_none, Option.isSome_none, Bool.false_eq_true, false_and, if_false, Bool.false_and, gen_get_instance_region,
+      bind, Except.bind, pure, Except.pure]
+    cases (a.region.orElse fun _ => a.regionDefault) with
+    | none => rfl
+    | some reg =>
+      simp only [gridCoordinatesN, gridCoordinates, bind, Except.bind, pure, Except.pure]
+      cases gridLines reg ⟨a.shape, a.spacing, a.adjust, a.pixel⟩ with
+      | error e => rfl
+      | ok en =>
+        obtain ⟨east, north⟩ := en
+        exact grid_tail p ncomp h1 _ _ _ a.proj inv a.dims a.dataNames
+  | some c =>
+    obtain ⟨ce, cn, ex⟩ := c
+    by_cases hs : (a.spacing.isSome || a.shape.isSome) = true
+    · have hs' : a.spacing.isSome = true ∨ a.shape.isSome = true := by simpa using hs
+      simp [hs, hs', bind, Except.bind, throw, throwThe, MonadExceptOf.throw]
+    · have hs' : ¬ (a.spacing.isSome = true ∨ a.shape.isSome = true) := by simpa using hs
+      by_cases hr : a.region.isSome = true
+      · simp [hs, hs', hr, bind, Except.bind, throw, throwThe, MonadExceptOf.throw]
+      · simp only [Option.map_some, Option.isSome_some, true_and, hs, hs', hr, if_false, Bool.and_false, Bool.false_eq_true, and_false, coordsTuple,
+          bind, Except.bind, pure, Except.pure, List.take_succ_cons, List.take_zero]
+        cases ce with
+        | d1 e => cases cn with
+          | d1 n =>
+            simp only [getNdimHorizontalCoords, if_true, meshgridFrom1dN, List.all_map, Function.comp_def, CoordArr.arr2]
+            by_cases hx : (ex.all fun x => isRect x n.length e.length) = true
+            · simp only [hx, if_true]
+              exact grid_tail p ncomp h1 _ _ _ a.proj inv a.dims a.dataNames
+            · simp [hx]
+          | d2 N => rfl
+        | d2 E => cases cn with
+          | d1 n => rfl
+          | d2 N =>
+            simp only [getNdimHorizontalCoords, checkMeshgridN, List.map_map, Function.comp_def, CoordArr.arr2, List.map_id', bind, Except.bind]
+            cases meshgridTo1d E N ex with
+            | error e => rfl
+            | ok v => exact grid_tail p ncomp h1 _ _ _ a.proj inv a.dims a.dataNames
+
+/-- The placement theorem stated directly about the regenerated `grid`: for a region (given or the fitted `region_`) and any
+    shape/spacing/adjust/registration whose coordinate lines are `(east, north)`, the source's `grid()` returns those coordinate vectors, the
+    requested or default dims, and variable `k` holding at row `i`, column `j` the prediction at `(east[j], north[i])` (projected if requested). -/
+theorem src_grid_placement (p : Predict) (ncomp : Nat) (h1 : 1 ≤ ncomp) (a : GridArgs) (inv : Rat × Rat → Rat × Rat)
+    (reg east north : List Rat) (names : List String)
+    (hc : a.coords = none) (hreg : (a.region.orElse fun _ => a.regionDefault) = some reg)
+    (hl : gridLines reg ⟨a.shape, a.spacing, a.adjust, a.pixel⟩ = .ok (east, north))
+    (he : east ≠ []) (hn : north ≠ []) (hnames : getDataNames ncomp a.dataNames = .ok names) :
+    Gen.grid p ncomp Gen.baseDims Gen.baseExtraCoordsName Gen.baseDataNamesDefaults a.regionDefault a.region a.shape a.spacing a.adjust a.pixel
+        a.extra a.dims a.dataNames (a.proj.map fun pr (b : Bool) => if b then inv else pr.apply) (a.coords.map coordsTuple)
+      = .ok ⟨a.dims.getD ("northing", "easting"), east, north,
+      (extraCoordNames a.extra.length).zip (a.extra.map fun v => north.map fun _ => east.map fun _ => v),
+      names.zip ((List.range ncomp).map fun k =>
+        north.map fun y => east.map fun x => (p (applyProj a.proj (x, y))).getD k 0)⟩ :=
+  (gen_grid_eq_model p ncomp h1 a inv).trans (grid_placement p ncomp a reg east north names hc hreg hl he hn hnames)
+
+/-- The source's `grid()` refuses coordinates together with a shape or spacing, and coordinates together with a region. -/
+theorem src_grid_rejects (p : Predict) (ncomp : Nat) (h1 : 1 ≤ ncomp) (a : GridArgs) (inv : Rat × Rat → Rat × Rat)
+    (hc : a.coords.isSome = true) (h : (a.spacing.isSome = true ∨ a.shape.isSome = true) ∨ a.region.isSome = true) :
+    Gen.grid p ncomp Gen.baseDims Gen.baseExtraCoordsName Gen.baseDataNamesDefaults a.regionDefault a.region a.shape a.spacing a.adjust a.pixel
+        a.extra a.dims a.dataNames (a.proj.map fun pr (b : Bool) => if b then inv else pr.apply) (a.coords.map coordsTuple)
+      = .error .valueError := by
+  rw [gen_grid_eq_model p ncomp h1 a inv]
+  rcases h with h | h
+  · exact coordinates_plus_shape_rejected p ncomp a hc (by simpa using h)
+  · exact coordinates_plus_region_rejected p ncomp a hc h
 
 /-! Non-vacuity -/
 example : (gridModel (polyPredict [(0, 2, 1000, 1/8)]) 1
